@@ -79,6 +79,50 @@ def scenarios(rng: random.Random, n: int, thorough: bool):
     return scs
 
 
+def limits_after_failed_requests(chk):
+    """The limits a range error is judged by are those of THIS calculator's configuration - also after requests on the same
+    calculator that failed: a zeroing far beyond reach (RangeError out of a trial shot), a fire that raised.  A calculator whose
+    altitude floor / drop limit / velocity limit really binds fires, is asked for an impossible zero, and fires again: the second
+    result is the first one, every earlier row within the configured limits, the reason the configured limit."""
+    import py_ballisticcalc as m
+    U = m.Unit
+    for name, cfg, alt, limit_ok in (
+            ("altitude floor", {"cMinimumAltitude": 0.0, "max_calc_step_size_feet": 2.0}, 300.0, lambda r, a: a + (r.height >> U.Foot) >= 0.0 - 1e-6),
+            ("drop limit", {"cMaximumDrop": -40.0, "max_calc_step_size_feet": 2.0}, 0.0, lambda r, a: (r.height >> U.Foot) >= -40.0 - 1e-6),
+            ("velocity limit", {"cMinimumVelocity": 1500.0, "max_calc_step_size_feet": 2.0}, 0.0, lambda r, a: (r.velocity >> U.FPS) >= 1500.0 - 1e-6)):
+        core.reset_world()
+        calc = m.Calculator(_config=dict(cfg))
+        mk = lambda: m.Shot(m.Weapon(U.Inch(2)), m.Ammo(m.DragModel(0.25, m.TableG7), U.FPS(2700)), atmo=m.Atmo(U.Foot(alt), U.InHg(29.0), U.Fahrenheit(59), 0))
+
+        def fire(c):
+            try:
+                return ("ok", None, [scen.row_fp(r) for r in c.fire(mk(), U.Yard(3000), U.Yard(100)).trajectory], None)
+            except m.RangeError as e:
+                return ("RangeError", e.reason, [scen.row_fp(r) for r in e.incomplete_trajectory], e.incomplete_trajectory)
+        first = fire(calc)
+        failed = []
+        for req in (lambda: calc.set_weapon_zero(mk(), U.Yard(6000)), lambda: calc.barrel_elevation_for_target(mk(), U.Yard(9000)),
+                    lambda: calc.fire(mk(), U.Yard(20000), U.Yard(5000))):
+            try:
+                req()
+                failed.append("returned")
+            except Exception as e:  # noqa
+                failed.append(type(e).__name__)
+        second = fire(calc)
+        fresh = fire(m.Calculator(_config=dict(cfg)))
+        chk.count(1, ("limits-after-failed-requests", name))
+        chk.stratum("limits_after_failed_requests")
+        k = {"source": "history", "limit": name}
+        if second[:3] != first[:3] or second[:3] != fresh[:3]:
+            chk.violation("C04.LimitsChangedByFailedRequests", k, {"failed_requests": failed, "first": first[:2] + (len(first[2]),),
+                                                                   "second": second[:2] + (len(second[2]),), "fresh": fresh[:2] + (len(fresh[2]),)})
+        if second[3]:
+            bad = [i for i, r in enumerate(second[3][1:-1], 1) if not limit_ok(r, alt)]
+            if bad:
+                chk.violation("C04.EarlierRowsRespectLimits", k, {"failed_requests": failed, "rows_beyond_the_limit": bad[:5], "reason": second[1]})
+    core.reset_world()
+
+
 def simultaneous_limits(rng, p, cfg, rng_ft):
     from pbv import integ
     import py_ballisticcalc as m
@@ -165,11 +209,12 @@ def run(chk: core.Check, replay=None) -> None:
         pairs.append({"tid": tid, "ev": "Pair", "clause": "C04.Terminates", "ok": b["outcome"] != "timeout"})
         if na >= 3:
             chk.stratum("paired_with_relaxed_limit")
+    limits_after_failed_requests(chk)
     loopsuite.validate(chk, "C04", outs, pairs)
     o = next((x for x in outs if x["outcome"] == "RangeError"), outs[0])
     chk.sample({"scenario": o["sc"], "outcome": o["outcome"], "reason": o.get("reason"), "tail_lines": o["lines"][-3:]})
     chk.require_strata(["limit_Vel", "limit_Drop", "limit_Alt", "completed", "paired_with_relaxed_limit", "mode_vertical",
-                        "mode_zero_velocity", "mode_beyond_reach", "mode_start_below_floor", "mode_vacuum_lob", "several_limits_in_one_step"])
+                        "mode_zero_velocity", "mode_beyond_reach", "mode_start_below_floor", "mode_vacuum_lob", "limits_after_failed_requests", "several_limits_in_one_step"])
     chk.exhaustive = False
     chk.rule.append("design: Integrator.tla C04_* with every subset of violated limits per step and liveness under the gravity assumption; "
                     "code->spec: seeded real shots (vertical, downward, slow, zero-velocity, high station, beyond reach, each limit, "
